@@ -691,6 +691,28 @@ def run_c06(chk):
         if ts[1] > 2.0 and ts[1] / ts[0] > 16:
             bad.append((doc, "growth:" + name, fams[name](base * 2),
                         "time x%.0f when the size doubles (%.2fs -> %.2fs)" % (ts[1] / ts[0], ts[0], ts[1])))
+    # ... and on a WIDE document, paths that reach the same nodes again and again from several context nodes (up and down, along
+    # the siblings, across the descendants): a node-set holds a node once, so the work per step is bounded by the document,
+    # however long the path (found on the unchanged code after a round-8 sub-agent's remark: `/r/*/../*/..` x7 on ten children
+    # did not end; repaired in /repo 8f0a0c5)
+    wide = "<r>" + "<a><b/><b/><b/></a>" * 8 + "</r>"
+    fan = {"updown": lambda n: "/r" + "/*/.." * n, "sibling": lambda n: "/r/*" + "/following-sibling::*" * n,
+           "dosup": lambda n: "/r" + "//*/.." * n, "precfoll": lambda n: "/r/*" + "/preceding-sibling::*/following-sibling::*" * n,
+           "ancdesc": lambda n: "//b" + "/ancestor::*/descendant::b" * n, "predup": lambda n: "/r/*" + "[../*]" * n + "/..",
+           "downup2": lambda n: "/r" + "/a/b/../.." * n}
+    for name in fan:
+        ts = []
+        for k in (6, 12):
+            t0 = time.time()
+            out = lib.run_lines(h, [lib.req("query", wide, "", fan[name](k))], timeout=60)[0]
+            ts.append(max(time.time() - t0, 0.02))
+            chk.count(["fanout", name, k], nontrivial=True)
+            if out.split(" || ")[0] in BAD:
+                bad.append((wide, "growth:fanout-%s:%d" % (name, k), fan[name](k), out.split(" || ")[0]))
+        growth["fanout-" + name] = [round(x, 3) for x in ts] + [round(ts[1] / ts[0], 1)]
+        if ts[1] > 2.0 and ts[1] / ts[0] > 16:
+            bad.append((wide, "growth:fanout-" + name, fan[name](12),
+                        "time x%.0f when the path doubles (%.2fs -> %.2fs)" % (ts[1] / ts[0], ts[0], ts[1])))
     chk.cov["growth_seconds_n_2n_ratio"] = growth
     chk.cov["input_kinds"] = dict(sorted(kinds.items()))
     chk.cov["outcomes_impl"] = dict(sorted(outcomes.items()))
